@@ -104,7 +104,11 @@ def run(ctx: Ctx) -> None:
         if okg:
             v_ = sg[0].targets[0].id
             rz_ = [n for n in walk_local(hl0) if isinstance(n, ast.Raise) and norm(n.exc) == v_]
-            okg = len(rz_) == 1 and (f"{v_} is not None", True) in guard_atoms(rz_[0]) and any("isinstance(error, BaseExceptionGroup)" in a[0] and a[1] for a in guard_atoms(rz_[0]))
+            in_group_handler = bool(rz_) and any(isinstance(a, ast.ExceptHandler) and "BaseExceptionGroup" in handler_classes(a) and not (handler_classes(a) - {"BaseExceptionGroup", "ExceptionGroup"}) for a in ancestors(rz_[0]))
+            okg = len(rz_) == 1 and (f"{v_} is not None", True) in guard_atoms(rz_[0]) and (in_group_handler or any("isinstance(error, BaseExceptionGroup)" in a[0] and a[1] for a in guard_atoms(rz_[0])))
+            # ... and it happens before the failure is downgraded to 'unsupported'
+            sup = [n for n in walk_local(hl0) if isinstance(n, ast.Assign) and dotted(n.targets[0]) == "self.supported" and any(a is x for x in ancestors(n) for a in [h_ for h_ in ancestors(rz_[0]) if isinstance(h_, ast.ExceptHandler)])] if rz_ else []
+            okg = okg and all(rz_[0].lineno < n.lineno for n in sup)
         ctx.check("C14.R2", f"{mod}:Lifespan.handle_lifespan", "exception group: the LifespanFailureError/cancellation SUBGROUP is re-raised when present", okg, "a startup failure wrapped in an exception group (task group / nursery inside the application) would be treated as 'lifespan unsupported'", sg[0] if sg else hl0)
         hl = repo.func(mod, "Lifespan.handle_lifespan")
         trys = [n for n in walk_local(hl) if isinstance(n, ast.Try)]
